@@ -37,9 +37,9 @@ CHECKS = {
  "C17": dict(engine="e1", technique="exhaustive enumeration of all strings over a 12-symbol grapheme-relevant alphabet up to a length bound x 7 constructors x every slice range against unicode-segmentation",
    text="Every string of up to 5 (thorough 6) code points over ASCII, CR, LF, precomposed, combining mark, ZWJ, emoji, regional indicator, Hangul jamo and a prepend character is converted by every constructor and compared with one-char-per-extended-grapheme-cluster content, representation choice, length, indexing, iteration both ways, Display and every slice/slice_u32 range on borrowed and owned types.",
    note="unicode-segmentation is the trusted definition of grapheme clusters; bounded length."),
- "C11": dict(engine="e1", technique="exhaustive enumeration of push/extend histories (honest and lying iterators, panicking callbacks) up to a depth bound on the real lock-free vector against a content model, a drop log and a counting allocator",
+ "C11": dict(engine="e1", technique="exhaustive enumeration of push/extend histories (honest and lying iterators, panicking callbacks) on the real lock-free vector against a content model, a drop log and a counting allocator; plus exhaustive handle/restart/drop histories of the real Nucleo under the controlled scheduler with destruction bookkeeping",
    text="Every history of up to 3 (thorough 4) operations over a 12-operation alphabet from 18 start states (capacity x prefill just before a bucket boundary x columns) runs on the real vector through the cfg-gated facade; after every operation the content (get, snapshot iteration, count) is compared with a reference model and the drop log is checked (nothing reachable dropped, every unpublished item dropped exactly once); after dropping the vector every item must have been dropped exactly once and every column allocation freed exactly once (thread-local counting allocator with quarantine, so double frees are detected instead of corrupting the heap).",
-   note="Sequential histories only so far (handle/restart/thread histories of the Nucleo front end are planned on the controlled scheduler); leaked partially filled columns of a panicking callback are tolerated as the statement allows."),
+   note="Vector level: sequential histories with a counting allocator for the column storage. Front end (real Nucleo under the controlled scheduler): every history of up to 4 (thorough 5) operations over {take, clone, drop x2, restart(true/false), push x2, tick, drop-matcher} plus scenarios with an injector thread that outlives restarts and the matcher; after every operation no item of a stream with a live injector or of the matcher's current stream may have been destroyed, at the end every injected item must have been destroyed exactly once. Leaked partially filled columns of a panicking callback are tolerated as the statement allows."),
  "C18": dict(engine="e1", technique="exhaustive enumeration of all small inputs, every length x deterministic shape family (including a quicksort-killer adversary), and every comparator-call index as cancel moment, on the real par_quicksort",
    text="All key sequences over 4 keys up to length 9 and all permutations up to length 8; 23 shapes at every length 0..=2600, 4000..=4100 and larger lengths, including inputs produced by running the real sort against McIlroy's adversary (they drive it through break_patterns into heapsort; long ones run in a child process so a stack overflow is reported, not suffered); for three lengths x four shapes the cancel flag is raised at EVERY comparator call index; outputs are checked to be permutations, sorted when 'not cancelled' is reported, never 'cancelled' without the flag; the worker's total order gives the identical result for 1/2/4/8 threads.",
    note="Large lengths are exhaustive in length x shape, not over all inputs (exhaustive=false); multi-thread runs are repeated runs under rayon's own scheduling (labelled); per-routine entry counters show that every branch of the sort was executed."),
